@@ -57,6 +57,14 @@ TEXT8 = ['a', 'B1', '', "o'q", 'x"y', 'b\\s', 'é²', '%_']
 TEXTX = [' ', 'a b', '^', '-', ']', 'a.b', "''", '\\', 'A', '٣', 'a\nb',
          '(', '*', '$']
 
+# representation boundaries (one-column 'extremes' layer)
+INT_EDGES = [0, 1, -1, 2 ** 31 - 1, -(2 ** 31 - 1), 2 ** 31, -2 ** 31,
+             2 ** 53 - 1, -(2 ** 53 - 1), 2 ** 53, -2 ** 53,
+             2 ** 53 + 1, -(2 ** 53 + 1), 2 ** 62 + 1, -(2 ** 62 + 1),
+             2 ** 63 - 1, -2 ** 63]
+REAL_EDGES = [1e308, -1e308, 5e-324, -5e-324, 0.0, -0.0, 0.1 + 0.2]
+TEXT_EDGES = ['', 'a', 'a' * 255, 'a' * 256]
+
 ALPHA = {
     'INTEGER': [None, -2, 0, 1, 3],
     'REAL': [None, -1.5, 0.0, 2.0, 2.5],
@@ -150,7 +158,9 @@ class C08(Check):
             'that the model says breaks a discovered constraint; '
             'non-trivial = discovery produced a constraint besides type and '
             'at least one must-fail perturbation was executed, or tdda '
-            'raised; same-name layers: every ordered pair (thorough: also '
+            'raised; extremes layer: one column of 0..2 (thorough 3) values '
+            'at the integer / float / length representation boundaries; '
+            'same-name layers: every ordered pair (thorough: also '
             'A,B,A triples) of 12 (thorough 18) tables named t differing in '
             'column names, types, order or only data x {new database, '
             'DROP+CREATE (thorough: + first connection left open)} x rex '
@@ -165,7 +175,9 @@ class C08(Check):
         'the bound',
         'verify_db_table is called with all defaults (epsilon None, '
         'type_checking strict); min/max perturbations lie outside both the '
-        '0 and the 1 % epsilon band',
+        '0 and the 1 % epsilon band (exact rational arithmetic in the '
+        'model); a perturbed integer outside the signed 64-bit range of '
+        'SQLite INTEGER is not applicable',
         'unspecified (executed, never alarmed on): sign perturbations on '
         'BOOLEAN columns; a string that an expression matches only up to a '
         'final newline or only unanchored; length perturbations on which '
@@ -194,6 +206,11 @@ class C08(Check):
              ('names', 'one column, the three other names'),
              ('two-col', 'two columns: type pairs x reduced alphabets x '
                          'name pairs')]
+        L.append(('extremes', 'one column over representation boundaries: '
+                              'INTEGER 0, +-1, +-2**31, +-2**53(+-1), '
+                              '+-(2**62+1), int64 limits; REAL +-1e308, '
+                              '+-5e-324, +-0.0, 0.1+0.2; TEXT of length 0, '
+                              '1, 255, 256'))
         L.append(('same-name', 'histories of differently laid-out tables '
                                'with the same name in one process (new '
                                'database / DROP+CREATE): last step equals '
@@ -247,6 +264,14 @@ class C08(Check):
                                     yield {'cols': [[na, da], [nb, db_]],
                                            'rows': [list(r) for r in rows],
                                            'rex': rex}
+        elif layer == 'extremes':
+            for decl, alpha in (('INTEGER', INT_EDGES), ('REAL', REAL_EDGES),
+                                ('TEXT', TEXT_EDGES)):
+                mr = 3 if thorough else 2
+                for col in columns([None] + alpha, mr):
+                    for rex in (False, True):
+                        yield {'cols': [['c', decl]],
+                               'rows': [[v] for v in col], 'rex': rex}
         elif layer in ('same-name', 'same-name-3'):
             specs = HIST_TABLES_T if thorough else HIST_TABLES_Q
             modes = HIST_MODES_T if thorough else HIST_MODES_Q
